@@ -218,6 +218,32 @@ def run(ctx: core.Ctx) -> int:
             ctx.oblige("TRUST-SIG", f"{F}:<module>", f"`{ast.unparse(c)[:60]}`", False, file=F, func="<module>", construct=f"{c.func.attr} options",
                        msg=f"`{ast.unparse(c)[:80]}` passes options to sympy", line=c.lineno)
     ctx.floor("TRUST-SIG", nq, 4, "Quaternion constructions")
+    # the symbols a user sets by name (oriw .. oriz, coriw .. coriz) are the components their names say: declared name == variable name, and the
+    # k-th argument of the quaternion built from them is the symbol whose name ends in "wxyz"[k]
+    ctx.rule("QUAT-COMP", "quaternions built from named symbols take them in (w, x, y, z) order; symbol variables carry their declared names")
+    declared = {}
+    for a in mod.body:
+        if isinstance(a, ast.Assign) and len(a.targets) == 1 and isinstance(a.targets[0], ast.Tuple) and isinstance(a.value, ast.Call) \
+                and ast.unparse(a.value.func).split(".")[-1] == "symbols" and a.value.args and isinstance(a.value.args[0], (ast.List, ast.Tuple)):
+            names = [e.value for e in a.value.args[0].elts if isinstance(e, ast.Constant)]
+            tg = [t.id for t in a.targets[0].elts if isinstance(t, ast.Name)]
+            if len(names) == len(tg) == len(a.targets[0].elts):
+                for v_, n_ in zip(tg, names):
+                    declared[v_] = n_
+                    if n_.isidentifier():
+                        ctx.oblige("QUAT-COMP", f"{F}:<module>", f"{v_} = symbol '{n_}'", v_ == n_, file=F, func="<module>", construct=f"symbol variable {v_}",
+                                   msg=f"the variable `{v_}` holds the symbol named '{n_}': the expressions written with `{v_}` are about a different "
+                                       f"user-visible name than they read", line=a.lineno)
+    nqc = 0
+    for c in ast.walk(mod):
+        if isinstance(c, ast.Call) and ast.unparse(c.func).split(".")[-1] == "Quaternion" and len(c.args) == 4 \
+                and all(isinstance(x, ast.Name) and x.id in declared for x in c.args):
+            nqc += 1
+            suffix = [declared[x.id][-1:] for x in c.args]
+            ctx.oblige("QUAT-COMP", f"{F}:<module>", f"`{ast.unparse(c)}` components {suffix}", suffix == ["w", "x", "y", "z"], file=F, func="<module>",
+                       construct=f"quaternion components {ast.unparse(c)[:40]}",
+                       msg=f"`{ast.unparse(c)}` takes the symbols named {[declared[x.id] for x in c.args]} as its (w, x, y, z) components", line=c.lineno)
+    ctx.floor("QUAT-COMP", nqc, 2, "quaternions built from named symbols (state orientation, mounting calibration)")
     for need in ("state", "control", "calibration", "state_model", "orientation", "symbolic_model"):
         if need not in T.defs:
             raise core.AnalysisError(f"{F}: module-level `{need}` not found")
